@@ -74,13 +74,19 @@ class Locality(Family):
             adaptive = "Adaptive" in s
             ms = (5,) if tier == "quick" else (5, 6)
             if adaptive:
-                ms = (5,)          # two independent adaptive runs: m = 6 does not finish within the budget
+                # two independent adaptive runs: m = 6 does not finish within the budget (m = 4 leaves nothing to check)
+                ms = (5,)
+                if tier == "quick" and s.startswith("Exp"):
+                    continue       # quick: LinearAdaptiveRFA only (same window routine); ExpAdaptiveRFA in the thorough tier
             for m in ms:
                 for n in ((2,) if adaptive else (2, 3)):
                     ps = params_for(s, tier)
                     ps = [q for q in ps if "a" not in q or int(q["a"]) <= n][: ((1 if adaptive else 2) if tier == "quick" else (2 if adaptive else 4))]
                     for p in ps:
-                        for j in ((0, m - 1) if adaptive else (0, 2, m - 1)):
+                        js = (0, m - 1) if adaptive else (0, 2, m - 1)
+                        if adaptive and tier == "quick":
+                            js = (0,)     # the other end: thorough tier
+                        for j in js:
                             grid = [str(g) for g in gap_grids(m, tier, limit=1)[2]]
                             out.append({"strategy": s, "m": m, "n": n, "grid": grid, "p": p, "j": j})
         # adaptive strategies with a window of 3 samples (with a = 2 both sides truncate to 1 and window effects of far
@@ -143,6 +149,7 @@ class Linearity(Family):
 
 
 META = {
+    "budget_s": {"quick": 300, "thorough": 1500},
     "explanation": "Two (or four) executions of the real strategy inside ONE symbolic run: the map parameters (a, b), "
                    "(c, d), the changed average and the second series are solver variables, so 'commutes for every "
                    "real map' is literally the quantifier z3 decides. In exact arithmetic the commutation also holds "
